@@ -654,6 +654,8 @@ mod static_instance_per_thread;
 mod static_instance_per_thread_sync;
 mod static_instances;
 mod thread_id_hash;
+#[cfg(folo_verif)]
+pub mod verif_hook;
 
 pub use r#box::*;
 pub(crate) use constants::*;
